@@ -60,8 +60,77 @@ def remove : Reg → List Nat → Nat → Nat → Reg
 
 def removeAll (r : Reg) (ent : List Nat) : Reg := r.filter (·.ent ≠ ent)
 
-/-- processReadUseCaseData: the reply to a `nodeManagementUseCaseData` read carries the stored function data
-    (`fd.ReplyCmdType(false)`), nothing is filtered or recomputed -/
-def readReply (r : Reg) : Reg := r
+/-! ### the read path: a peer's `nodeManagementUseCaseData` read through node management
+
+    The datagram is dispatched to `NodeManagement.HandleMessage`, which routes a command carrying use-case data to
+    `handleMsgUseCaseData`; for the classifier `read` that is `processReadUseCaseData`: a reply whose payload is the
+    stored function data (`fd.ReplyCmdType(false)`), serialised onto the wire; the peer decodes it. The wire is
+    modelled as a token list with length prefixes (what matters about JSON here: the encoding is injective and
+    self-delimiting; `encoding/json` itself is assumption A-json and compared by the harness on every read). -/
+
+abbrev Wire := List Nat
+
+def encNats (l : List Nat) : Wire := l.length :: l
+def encSup (s : Support) : Wire := [s.name, s.version, if s.avail then 1 else 0, s.sub] ++ encNats s.scen
+def encInfo (i : Info) : Wire := encNats i.ent ++ (i.actor :: i.sup.length :: i.sup.flatMap encSup)
+def encode (r : Reg) : Wire := r.length :: r.flatMap encInfo
+
+def decNats : Wire → Option (List Nat × Wire)
+  | [] => none
+  | n :: rest => if n ≤ rest.length then some (rest.take n, rest.drop n) else none
+
+def decMany {α : Type} (p : Wire → Option (α × Wire)) : Nat → Wire → Option (List α × Wire)
+  | 0, w => some ([], w)
+  | n + 1, w =>
+    match p w with
+    | none => none
+    | some (x, w') =>
+      match decMany p n w' with
+      | none => none
+      | some (xs, w'') => some (x :: xs, w'')
+
+def decSup : Wire → Option (Support × Wire)
+  | name :: version :: av :: sub :: rest =>
+    match decNats rest with
+    | none => none
+    | some (scen, w) => if av ≤ 1 then some (⟨name, version, av == 1, scen, sub⟩, w) else none
+  | _ => none
+
+def decInfo (w : Wire) : Option (Info × Wire) :=
+  match decNats w with
+  | none => none
+  | some (ent, w1) =>
+    match w1 with
+    | actor :: n :: w2 =>
+      match decMany decSup n w2 with
+      | none => none
+      | some (sup, w3) => some (⟨ent, actor, sup⟩, w3)
+    | _ => none
+
+/-- the peer's decoding of a reply payload; `none` = not a well-formed use-case payload -/
+def decode : Wire → Option Reg
+  | [] => none
+  | n :: rest =>
+    match decMany decInfo n rest with
+    | some (r, []) => some r
+    | _ => none
+
+/-- command classifiers of an inbound datagram -/
+inductive Cls
+  | read | reply | notify | write | call | result
+deriving DecidableEq, Repr
+
+/-- processReadUseCaseData: the reply payload is the encoding of the stored function data -/
+def readReply (r : Reg) : Wire := encode r
+
+/-- `NodeManagement.handleMsgUseCaseData` on the serving side: the use-case payload sent back to the peer, if any.
+    Only a `read` is answered with use-case data; `reply` / `notify` update the cache kept for the *peer's* data and
+    never touch the local registry; the other classifiers are rejected. -/
+def handleUseCaseMsg (r : Reg) : Cls → Option Wire
+  | .read => some (readReply r)
+  | _ => none
+
+/-- what a peer that sends a read obtains: the decoded payload of the reply -/
+def peerReads (r : Reg) : Option Reg := (handleUseCaseMsg r .read).bind decode
 
 end Spine.UC
